@@ -19,22 +19,12 @@ Notation check_finished := (check_finished FS fs_write_file fs_exec resp_fail no
 Notation send_pdu := (send_pdu resp_len req_len).
 Notation not_recv := (@not_recv FS).
 
-(* handle_fault returns a pair *)
-Ltac callhf J lem side :=
-  match goal with
-  | |- context [handle_fault ?now ?c ?x] => nomatch x;
-      let Hx := fresh "Hx" in assert (Hx : J x) by solveJ J;
-      let K := fresh "K" in pose proof (lem now c x ltac:(side) Hx) as K;
-      let r := fresh "r" in let b := fresh "b" in
-      destruct (handle_fault now c x) as [r b]; cbn [fst snd] in K; clear Hx
-  end.
-
 (* ---- C04: after a successful delivery no later output reports a file-integrity failure ---- *)
 Definition bad (c : cond) : Prop := c = FileChecksumFailure \/ c = FilesizeError.
 Definition clean (o : out) : Prop :=
   match o with
   | OInd (IFault c _) => ~ bad c
-  | OInd (IFinished r _ _ _) => ~ bad (rp_cond r)
+  | OInd (IFinished r _ _ _) => ~ bad (trp_cond r)
   | OPdu p => match o_payload p with PFinished f => ~ bad (fin_cond f) | _ => True end
   | _ => True
   end.
@@ -43,33 +33,93 @@ Definition fin_clean (s : rstate) : Prop :=
 Definition J4 (s : rstate) : Prop :=
   not_recv s /\ ~ bad (r_cond s) /\ fin_clean s /\ Forall clean (r_out s).
 
-Ltac rew_hyps := repeat match goal with
-  | E : ?x = _, H : context [match ?x with _ => _ end] |- _ => rewrite E in H
-  | E : ?x = _ |- context [match ?x with _ => _ end] => rewrite E
-  end.
-Ltac j4fin := rew_hyps; unfold bad in *; intuition (auto; try congruence; try discriminate).
-Ltac j4 := unfold J4, fin_clean, not_recv, clean in *; cbn in *; j4fin;
-  repeat (match goal with |- Forall _ (_ :: _) => constructor; cbn end); j4fin; cbn; j4fin.
+(* J4 only looks at four fields *)
+Lemma J4_ext (s s' : rstate) : J4 s -> r_phase s' = r_phase s -> r_cond s' = r_cond s ->
+  r_fin s' = r_fin s -> r_out s' = r_out s -> J4 s'.
+Proof.
+  unfold J4, fin_clean, RecvP.not_recv. intros (A & B & C & D) E1 E2 E3 E4.
+  rewrite E1, E2, E3, E4. auto.
+Qed.
+(* ... and new outputs must be clean *)
+Lemma J4_out (s s' : rstate) o : J4 s -> r_phase s' = r_phase s -> r_cond s' = r_cond s ->
+  r_fin s' = r_fin s -> r_out s' = o :: r_out s -> clean o -> J4 s'.
+Proof.
+  unfold J4, fin_clean, RecvP.not_recv. intros (A & B & C & D) E1 E2 E3 E4 Ho.
+  rewrite E1, E2, E3, E4. splits; auto.
+Qed.
+Lemma J4_flag (s s' : rstate) f b b' : J4 s -> r_phase s' = r_phase s -> r_cond s' = r_cond s ->
+  r_fin s = Some (f, b) -> r_fin s' = Some (f, b') -> r_out s' = r_out s -> J4 s'.
+Proof.
+  unfold J4, fin_clean, RecvP.not_recv. intros (A & B & C & D) E1 E2 E3 E4 E5.
+  rewrite E1, E2, E4, E5. rewrite E3 in C. auto.
+Qed.
+
+Ltac leaf4 :=
+  first [ eassumption
+        | match goal with Hb : J4 _ |- _ =>
+            eapply J4_ext; [exact Hb | reflexivity | reflexivity | reflexivity | reflexivity] end
+        | match goal with Hb : J4 _ |- _ =>
+            eapply J4_out; [exact Hb | reflexivity | reflexivity | reflexivity | reflexivity
+                           | cbn; unfold bad; intuition congruence] end ].
+
+Lemma not_bad_neq c : c <> FileChecksumFailure -> c <> FilesizeError -> ~ bad c.
+Proof. unfold bad. intuition. Qed.
 
 Lemma J4_shutdown now s : J4 s -> J4 (shutdown now s).
-Proof. intros. unfold shutdown. j4. Qed.
+Proof. intros H. unfold shutdown. leaf4. Qed.
 Lemma J4_abandon now s : J4 s -> J4 (abandon now s).
-Proof. intros. unfold abandon. j4. Qed.
+Proof.
+  intros H. apply J4_shutdown. unfold abandon.
+  eapply J4_out; [exact H | reflexivity | reflexivity | reflexivity | reflexivity | exact I].
+Qed.
 Lemma J4_suspend now s : J4 s -> J4 (suspend now s).
-Proof. intros. unfold suspend. j4. Qed.
+Proof.
+  intros H. unfold suspend.
+  eapply J4_out; [exact H | reflexivity | reflexivity | reflexivity | reflexivity | exact I].
+Qed.
+
+Lemma J4_prepare_finished fl s : J4 s -> J4 (prepare_finished fl s).
+Proof.
+  unfold J4, fin_clean, RecvP.not_recv, prepare_finished. cbn. intros (A & B & C & D). auto.
+Qed.
+
+Lemma J4_finished_ind s : J4 s ->
+  J4 (emit_ind (IFinished (generate_report s) (r_fstat s) (r_dc s) []) s).
+Proof.
+  intros H. eapply J4_out; [exact H | reflexivity | reflexivity | reflexivity | reflexivity |].
+  cbn. destruct H as (_ & B & _). exact B.
+Qed.
+
+Lemma J4_phase_cancelled s : J4 s -> J4 (set_r_phase RCancelled s).
+Proof.
+  unfold J4, fin_clean, RecvP.not_recv. cbn. intros (A & B & C & D). splits; auto. discriminate.
+Qed.
+
 Lemma J4_cancel_ now s : J4 s -> J4 (cancel_ now s).
 Proof.
-  intros H. unfold cancel_. destruct (cfg_mode _) eqn:Em; [|destruct (closure _) eqn:Ec]; j4.
+  intros H. unfold cancel_.
+  assert (H1 : J4 (upd_nak (c_pause now) (set_r_phase RCancelled s))).
+  { eapply J4_ext; [apply J4_phase_cancelled; exact H | reflexivity..]. }
+  destruct (cfg_mode _).
+  - apply J4_finished_ind. apply J4_prepare_finished. exact H1.
+  - apply J4_finished_ind. apply J4_shutdown. destruct (closure _); [apply J4_prepare_finished|]; exact H1.
 Qed.
 
 Definition timer_cond (c : cond) : Prop :=
   c = InactivityDetected \/ c = PositiveLimitReached \/ c = NakLimitReached \/ c = CancelReceived.
 
+Lemma J4_set_cond c s : timer_cond c -> J4 s -> J4 (set_r_cond c s).
+Proof.
+  unfold J4, fin_clean, RecvP.not_recv, timer_cond, bad. cbn. intros Hc (A & B & C & D).
+  splits; auto. intuition congruence.
+Qed.
+
 Lemma J4_handle_fault now c s : timer_cond c -> J4 s -> J4 (fst (handle_fault now c s)).
 Proof.
   intros Hc H. unfold handle_fault.
   assert (H1 : J4 (emit_ind (IFault c (r_recvd (set_r_cond c s))) (set_r_cond c s))).
-  { unfold timer_cond in Hc. j4. }
+  { eapply J4_out; [apply J4_set_cond; [exact Hc | exact H] | reflexivity | reflexivity | reflexivity | reflexivity |].
+    cbn. unfold timer_cond, bad in *. intuition congruence. }
   destruct (handler _ c); cbn [fst].
   - apply J4_cancel_; exact H1.
   - apply J4_suspend; exact H1.
@@ -78,23 +128,34 @@ Proof.
 Qed.
 
 Ltac tc := unfold timer_cond; auto.
-Ltac pass4 := repeat (first [ callhf J4 J4_handle_fault tc | call2 J4 (@abandon FS) J4_abandon
-                            | call2 J4 (@cancel_ FS) J4_cancel_ | destr_inner ]; cbn [fst snd]); j4.
+Ltac pass4 := repeat (first [ callhf J4 J4_handle_fault tc leaf4 | call2 J4 (@abandon FS) J4_abandon leaf4
+                            | call2 J4 (@cancel_ FS) J4_cancel_ leaf4 | destr_inner ]; cbn [fst snd]);
+              try leaf4.
 
 Lemma J4_send_naks now s : J4 s -> J4 (send_naks resp_len req_len now s).
-Proof. intros H. unfold send_naks, c_limit_reached. pass4. Qed.
-
+Proof. intros H. unfold send_naks, c_limit_reached, emit_pdu. pass4. Qed.
 
 Lemma J4_send_ack_eof s : J4 s -> J4 (send_ack_eof resp_len req_len s).
 Proof. intros H. unfold send_ack_eof, emit_pdu. pass4. Qed.
 
 Lemma J4_send_finished now s : J4 s -> J4 (send_finished resp_len req_len now s).
-Proof. intros H. unfold send_finished, set_fin_flag, emit_pdu. pass4. Qed.
+Proof.
+  intros H. unfold send_finished, set_fin_flag, emit_pdu.
+  destruct (r_fin (upd_ack (c_restart now) s)) as [[f [|]]|] eqn:E; try leaf4.
+  cbn in E.
+  assert (H1 : J4 (set_r_out (OPdu (mkOpdu false (payload_len (r_cfg s) resp_len req_len (PFinished f))
+                                            (cfg_src (r_cfg s)) (PFinished f)) :: r_out s)
+                             (upd_ack (c_restart now) s))).
+  { eapply J4_out; [exact H | reflexivity | reflexivity | reflexivity | reflexivity |].
+    cbn. destruct H as (_ & _ & C & _). unfold fin_clean in C. rewrite E in C. exact C. }
+  cbn. rewrite E.
+  eapply J4_flag; [exact H1 | reflexivity | reflexivity | cbn; exact E | reflexivity | reflexivity].
+Qed.
 
 Lemma J4_answer_prompt now s : J4 s -> J4 (answer_prompt resp_len req_len now s).
 Proof.
-  intros H. unfold answer_prompt, emit_pdu. destruct (r_prompt s) as [[|]|]; [| j4 | j4].
-  apply J4_send_naks. j4.
+  intros H. unfold answer_prompt, emit_pdu. destruct (r_prompt s) as [[|]|]; try leaf4.
+  apply J4_send_naks. leaf4.
 Qed.
 
 Lemma J4_send_pdu now s : J4 s -> J4 (send_pdu now s).
@@ -109,10 +170,10 @@ Lemma J4_resume now s : J4 s -> J4 (resume now s).
 Proof. intros H. unfold resume. pass4. Qed.
 
 Lemma J4_cancel now s : J4 s -> J4 (cancel now s).
-Proof. intros H. unfold cancel. apply J4_cancel_. j4. Qed.
+Proof. intros H. unfold cancel. apply J4_cancel_. apply J4_set_cond; [tc | exact H]. Qed.
 
 Lemma J4_send_report s : J4 s -> J4 (send_report s).
-Proof. intros H. unfold send_report. j4. Qed.
+Proof. intros H. unfold send_report. leaf4. Qed.
 
 Lemma J4_ht_delayed now s : J4 s -> J4 (ht_delayed now s).
 Proof.
@@ -122,8 +183,19 @@ Qed.
 Lemma J4_ht_inactivity now s : J4 s -> J4 (fst (ht_inactivity now s)).
 Proof. intros H. unfold ht_inactivity, c_limit_reached. pass4. Qed.
 
+Lemma J4_set_fin_flag b s : J4 s -> J4 (set_fin_flag b s).
+Proof.
+  intros H. unfold set_fin_flag. destruct (r_fin s) as [[f b0]|] eqn:E; [|exact H].
+  eapply J4_flag; [exact H | reflexivity | reflexivity | exact E | reflexivity | reflexivity].
+Qed.
+
 Lemma J4_ht_phase now s : J4 s -> J4 (ht_phase now s).
-Proof. intros H. unfold ht_phase, c_limit_reached, c_timeout_occurred, set_fin_flag. pass4. Qed.
+Proof.
+  intros H. unfold ht_phase, c_limit_reached, c_timeout_occurred.
+  repeat (first [ callhf J4 J4_handle_fault tc leaf4 | call2 J4 (@abandon FS) J4_abandon leaf4
+                | call2 J4 (@set_fin_flag FS) J4_set_fin_flag leaf4 | destr_inner ]; cbn [fst snd]);
+    try leaf4.
+Qed.
 
 Lemma J4_handle_timeout now s : J4 s -> J4 (handle_timeout now s).
 Proof.
@@ -137,15 +209,15 @@ Lemma J4_process_pdu now p s : J4 s -> J4 (fst (process_pdu now p s)).
 Proof.
   intros H. unfold Recv.process_pdu.
   set (s0 := if suspended s then s else upd_inact (c_reset now) s).
-  assert (H0 : J4 s0) by (unfold s0; destruct (suspended s); j4).
+  assert (H0 : J4 s0) by (unfold s0; destruct (suspended s); leaf4).
   clearbody s0. clear H.
   assert (Hn : not_recv s0) by (destruct H0; assumption).
   destruct (cfg_mode (r_cfg s0)); destruct p; cbn [fst];
     rewrite ?late_filedata_acked, ?late_eof_acked, ?late_metadata_acked, ?late_filedata_unacked,
             ?late_eof_unacked by exact Hn; try exact H0;
-    unfold pdu_ack_acked, pdu_ack_unacked, pdu_metadata_unacked;
-    repeat (destr_inner; cbn [fst]); try exact H0;
-    unfold prepare_ack_eof, shutdown, set_metadata; j4.
+    unfold pdu_ack_acked, pdu_ack_unacked, pdu_metadata_unacked, prepare_ack_eof, set_metadata;
+    repeat (destr_inner; cbn [fst]); try exact H0; try leaf4.
+  all: apply J4_shutdown; leaf4.
 Qed.
 
 (* the invariant is preserved by every operation, and (since the step starts with an empty
@@ -153,7 +225,8 @@ Qed.
 Theorem J4_rstep now o s : J4 s -> J4 (fst (rstep now o s)).
 Proof.
   intros H. unfold Recv.rstep.
-  assert (H0 : J4 (set_r_out [] s)) by j4.
+  assert (H0 : J4 (set_r_out [] s)).
+  { destruct H as (A & B & C & D). unfold J4, fin_clean, RecvP.not_recv in *. cbn. auto. }
   destruct o; cbn [fst].
   - apply J4_process_pdu; exact H0.
   - destruct (has_pdu_to_send _); [apply J4_send_pdu|]; exact H0.
@@ -163,6 +236,14 @@ Proof.
   - apply J4_resume; exact H0.
   - apply J4_send_report; exact H0.
   - apply J4_shutdown; exact H0.
+Qed.
+
+(* entry: the state right after a successful delivery satisfies the invariant *)
+Lemma J4_entry (s : rstate) f b : r_phase s = RFinished -> r_cond s = NoError ->
+  r_fin s = Some (f, b) -> fin_cond f = NoError -> J4 (set_r_out [] s).
+Proof.
+  intros Hp Hc Hf Hfc. unfold J4, fin_clean, RecvP.not_recv, bad. cbn. rewrite Hp, Hc, Hf, Hfc.
+  splits; auto; try discriminate; intuition discriminate.
 Qed.
 
 End RecvP4.
